@@ -1,11 +1,13 @@
 CONSTANTS
-  MaxLen = 2
+  MaxLen = 4
   Emit = FALSE
   Dev_TickerInterval = TRUE
   Dev_NoSessionCheck = TRUE
   Dev_NilSession = TRUE
   Dev_UnknownItem = TRUE
+  Dev_BlockedFanout = TRUE
   SvcFilter = {}
 SPECIFICATION Spec
 INVARIANTS InvAliveAndResponsive
+VIEW view
 CHECK_DEADLOCK FALSE
